@@ -139,7 +139,7 @@ MergeMatches(G, r, pat) ==
 RECURSIVE FoldMerge(_, _, _, _, _, _)
 FoldMerge(rd, G, rows, c, i, acc) ==
   IF i > Len(rows) THEN [ok |-> TRUE, g |-> G, rows |-> acc]
-  ELSE LET ms == MergeMatches(G, rows[i], c.mpat)
+  ELSE LET ms == MergeMatches(IF "gm" \in DOMAIN rd THEN rd.gm ELSE G, rows[i], c.mpat)
        IN IF Len(ms) > 0
           THEN LET RECURSIVE each(_, _)
                    each(g, k) == IF k > Len(ms) THEN g ELSE each(ApplyItems(rd, g, ms[k], c.onmatch, 1), k + 1)
@@ -162,6 +162,12 @@ ApplyStmtU(G, stmt, mode, rev) ==
   LET rows == RunParts(G, << EmptyRow >>, stmt.parts, 1, FALSE) IN
   ApplyClauses([mode |-> mode, g0 |-> G],
                [ok |-> TRUE, g |-> G, rows |-> IF rev THEN Reverse(rows) ELSE rows], stmt.updates, 1)
+(* rows matched on Gm, effects applied to Ga: what a statement of an explicit transaction does *)
+(* when it is evaluated against the committed snapshot instead of the transaction's own state *)
+(* (an alternative semantics used only to attribute divergences)                              *)
+ApplyStmtSplit(Gm, Ga, stmt) ==
+  ApplyClauses([mode |-> "live", g0 |-> Ga, gm |-> Gm],     \* MERGE looks for its pattern in Gm as well
+               [ok |-> TRUE, g |-> Ga, rows |-> RunParts(Gm, << EmptyRow >>, stmt.parts, 1, FALSE)], stmt.updates, 1)
 (* the semantics: expressions read the graph as modified so far by the statement *)
 ApplyStmt(G, stmt) == ApplyStmtU(G, stmt, "live", FALSE)
 (***************************************************************************)
@@ -196,4 +202,20 @@ OrderDependent(G, stmt) ==
   LET a == ApplyStmtU(G, stmt, "live", FALSE) b == ApplyStmtU(G, stmt, "live", TRUE) IN
   a.ok # b.ok \/ (a.ok /\ GraphDiff(a.g, b.g) # "")
 
+
+(***************************************************************************)
+(* C14 at the level of a dump: every relationship joins two listed nodes,  *)
+(* and the incoming view lists exactly the relationships of the outgoing   *)
+(* view.  "" when well formed.                                             *)
+(***************************************************************************)
+DumpIllFormed(G) ==
+  LET es == LiveRelSeq(G)
+      key(e) == <<e.src, e.type, e.dst>>
+      outs == [i \in 1..Len(es) |-> key(es[i])]
+      inn == G.inn
+      cnt(s, x) == Cardinality({i \in 1..Len(s) : s[i] = x})
+  IN IF \E i \in 1..Len(es) : ~NodeLive(G, es[i].src) \/ ~NodeLive(G, es[i].dst) THEN "dangling-relationship"
+     ELSE IF \E i \in 1..Len(inn) : ~NodeLive(G, inn[i][1]) \/ ~NodeLive(G, inn[i][3]) THEN "dangling-relationship-incoming-view"
+     ELSE IF Len(outs) # Len(inn) \/ \E i \in 1..Len(outs) : cnt(outs, outs[i]) # cnt(inn, outs[i]) THEN "directions-disagree"
+     ELSE ""
 =============================================================================
